@@ -59,6 +59,11 @@ var checks = map[string]func(*core.Ctx){
 		session.SequentialStage(c, "retain family", "retain", 60, 18)
 		c.Finish()
 	},
+	"XSURVEY2": func(c *core.Ctx) {
+		c.Level = "model_checking"
+		session.ClusterStage(c, "history across brokers (answered surveys) differs from the specification", 2, true, []string{"retain"}, 20, 14)
+		c.Finish()
+	},
 	"XCLUSTER": func(c *core.Ctx) {
 		c.Level = "model_checking"
 		session.ClusterStage(c, "cluster differs from the one-broker specification at quiescence", 2, false, []string{"pubsub", "presence", "ending"}, 30, 14)
